@@ -1,6 +1,7 @@
 import Exetera.Props.C04
 import Exetera.Props.C10.Basic
 import Exetera.Model.KernelSitesMapValid
+import Exetera.Model.KernelPathsMapValid
 import Exetera.Lemmas.NoOobMapValid
 /-!
 # C10 — the map-valid kernels (owning property: C04)
@@ -17,6 +18,14 @@ open Exetera Exetera.MapValid Exetera.Spec
 /-- the loop guards and subscripts of the modelled map-valid kernels, as regenerated from the current source, are
     exactly the ones the model was written against -/
 theorem access_sites_covered_map_valid : ∀ k ∈ KernelSites.mapValidSites, lookup k.1 = some k := by decide +kernel
+
+/-- the PATH CONDITION of every subscript occurrence in these kernels (enclosing loop guards, `if` / `elif` tests, negated
+    `else` branches and early exits), as regenerated from the current source (`Gen/KernelPaths.lean`), is exactly the one the
+    model was written against (`Model/KernelPathsMapValid.lean`): dropping or changing a test that dominates a subscript breaks
+    the build; and the table covers exactly the kernels of the site table -/
+theorem access_paths_covered_map_valid :
+    (∀ k ∈ KernelPaths.mapValidPaths, lookupPaths k.1 = some k) ∧
+    KernelPaths.mapValidPaths.map (·.1) = KernelSites.mapValidSites.map (·.1) := by decide +kernel
 
 example : KernelSites.mapValidSites.length = 7 := by decide
 
